@@ -150,7 +150,8 @@ def _finish(m, exp, ctx, zero_neg, ub=None):
             sh = me - exp
             if sh < e.W - 2:
                 lim = mc << sh if sh >= 0 else mc >> (-sh)
-                if lim < (1 << (e.W - 2)):
+                if lim < (1 << (e.W - 2)) and not (ub is not None and (1 << (ub + 1)) <= lim):
+                    # (when the static bound on the result's bit length already shows R <= lim there is nothing to discharge)
                     e.oblige(R <= lim, 'summary-overflow-not-modelled')
     return _mk_float(rneg, exp, R, ctx, None if ub is None else ub + 1)
 
@@ -211,16 +212,27 @@ def make(real_ops):
         ep = x.exp + y.exp
         ex = min(ep, z.exp)
         a, b = _signed(x, x.exp), _signed(y, y.exp)
-        cur().oblige(z3.And(z3.BVMulNoOverflow(a, b, True), z3.BVMulNoUnderflow(a, b)), 'summary-mul-overflow')
+        ua, ub_ = _ub(x, x.exp), _ub(y, y.exp)
+        up = (ua + ub_) if (ua is not None and ub_ is not None) else None        # bits of the product at exponent ep
+        if up is None or up >= cur().W - 2:
+            cur().oblige(z3.And(z3.BVMulNoOverflow(a, b, True), z3.BVMulNoUnderflow(a, b)), 'summary-mul-overflow')
+            up = None
         mp = a * b
         if ep != ex:
             sh = ep - ex
             r = mp << sh
-            cur().oblige((r >> sh) == mp, 'summary-shift-overflow')
+            if up is None or up + sh >= cur().W - 2:
+                cur().oblige((r >> sh) == mp, 'summary-shift-overflow')
+                up = None
+            else:
+                up = up + sh
             mp = r
         zz = _signed(z, ex)
-        cur().oblige(z3.And(z3.BVAddNoOverflow(mp, zz, True), z3.BVAddNoUnderflow(mp, zz)), 'summary-add-overflow')
-        return _finish(mp + zz, ex, ctx, z3.And(z3.Xor(_sbool(x), _sbool(y)), _sbool(z)))
+        uz = _ub(z, ex)
+        ok = _fits(up, uz)
+        if not ok:
+            cur().oblige(z3.And(z3.BVAddNoOverflow(mp, zz, True), z3.BVAddNoUnderflow(mp, zz)), 'summary-add-overflow')
+        return _finish(mp + zz, ex, ctx, z3.And(z3.Xor(_sbool(x), _sbool(y)), _sbool(z)), (max(up, uz) + 1) if ok else None)
 
     def neg(x, ctx=None):
         if not usable(x):
